@@ -45,42 +45,46 @@ def sentry (skipws : Bool) : M Bool := fun s =>
   else (true, s)
 
 /-- `is >> c` for `char c` (the argument is the previous content of `c`, kept on failure) -/
-def readChar (old : Char) : M Char := do
-  if !(← sentry true) then return old
-  let s ← get
-  match s.buf with
-  | c :: _ => set (s.advance 1); return c
-  | [] => set { s with eof := true, fail := true }; return old
+def readChar (old : Char) : M Char := fun s =>
+  match sentry true s with
+  | (false, s1) => (old, s1)
+  | (true, s1) =>
+    match s1.buf with
+    | c :: _ => (c, s1.advance 1)
+    | [] => (old, { s1 with eof := true, fail := true })
 
 /-- `is.peek()`: `none` is `EOF` -/
-def peek : M (Option Char) := do
-  if !(← sentry false) then return none
-  let s ← get
-  match s.buf with
-  | c :: _ => return some c
-  | [] => set { s with eof := true }; return none
+def peek : M (Option Char) := fun s =>
+  match sentry false s with
+  | (false, s1) => (none, s1)
+  | (true, s1) =>
+    match s1.buf with
+    | c :: _ => (some c, s1)
+    | [] => (none, { s1 with eof := true })
 
 /-- `is.get()` -/
-def getc : M (Option Char) := do
-  if !(← sentry false) then return none
-  let s ← get
-  match s.buf with
-  | c :: _ => set (s.advance 1); return some c
-  | [] => set { s with eof := true, fail := true }; return none
+def getc : M (Option Char) := fun s =>
+  match sentry false s with
+  | (false, s1) => (none, s1)
+  | (true, s1) =>
+    match s1.buf with
+    | c :: _ => (some c, s1.advance 1)
+    | [] => (none, { s1 with eof := true, fail := true })
 
 /-- `is.unget()` / `is.putback(c)` of the character just read (C++11: clears `eofbit` first) -/
-def unget : M Unit := do
-  modify fun s => { s with eof := false }
-  if !(← sentry false) then return ()
-  modify fun s => match s.before with
-    | [] => { s with bad := true }
-    | c :: bs => { s with before := bs, buf := c :: s.buf }
+def unget : M Unit := fun s =>
+  match sentry false { s with eof := false } with
+  | (false, s1) => ((), s1)
+  | (true, s1) =>
+    match s1.before with
+    | [] => ((), { s1 with bad := true })
+    | c :: bs => ((), { s1 with before := bs, buf := c :: s1.buf })
 
 /-- `expect(is, c)` of `Estimate.h` -/
-def expect (c : Char) : M Bool := do
-  match (← peek) with
-  | some d => if d == c then let _ ← getc; return true else modify (fun s => { s with fail := true }); return false
-  | none => modify (fun s => { s with fail := true }); return false
+def expect (c : Char) : M Bool := fun s =>
+  match peek s with
+  | (some d, s1) => if d == c then (true, (getc s1).2) else (false, { s1 with fail := true })
+  | (none, s1) => (false, { s1 with fail := true })
 
 /-! ### `num_get` for floating point: the characters accumulated, then the `strtod` acceptance test -/
 
@@ -105,21 +109,18 @@ def scanFloat (l : List Char) : List Char × List Char :=
 
 /-- would `strtod` consume the whole of the accumulated text?
 `[sign] (digits [. digits*] | . digits+) [(e|E) [sign] digits+]` -/
-def digitsPrefix (l : List Char) : List Char × List Char := (l.takeWhile isDigit, l.dropWhile isDigit)
+def stripSign (l : List Char) : List Char := match l with | c :: cs => if isSign c then cs else l | [] => l
 def validExp (l : List Char) : Bool :=
   match l with
   | [] => true
   | c :: cs => (c == 'e' || c == 'E') &&
-    (let cs' := match cs with | d :: ds => if isSign d then ds else cs | [] => cs
+    (let cs' := stripSign cs
      !cs'.isEmpty && cs'.all isDigit)
-def validFloat (l : List Char) : Bool :=
-  let l := match l with | c :: cs => if isSign c then cs else l | [] => l
-  let (ip, r) := digitsPrefix l
-  match r with
-  | '.' :: r' =>
-    let (fp, r'') := digitsPrefix r'
-    (!ip.isEmpty || !fp.isEmpty) && validExp r''
-  | _ => !ip.isEmpty && validExp r
+def validMant (l : List Char) : Bool :=
+  match l.dropWhile isDigit with
+  | '.' :: r' => (!(l.takeWhile isDigit).isEmpty || !(r'.takeWhile isDigit).isEmpty) && validExp (r'.dropWhile isDigit)
+  | r => !(l.takeWhile isDigit).isEmpty && validExp r
+def validFloat (l : List Char) : Bool := validMant (stripSign l)
 
 def zeroLex : Lex := ['0']
 
@@ -130,7 +131,7 @@ def digitsVal (l : List Char) : Nat := l.foldl (fun a c => a * 10 + (c.toNat - '
 def overflowBound : Nat := 2 ^ 1024 - 2 ^ 970
 /-- for a lexeme accepted by `validFloat` -/
 def overflows (l : List Char) : Bool :=
-  let l := match l with | c :: cs => if isSign c then cs else l | [] => l
+  let l := stripSign l
   let ip := l.takeWhile isDigit
   let r := l.dropWhile isDigit
   let (fp, r) := match r with | '.' :: r' => (r'.takeWhile isDigit, r'.dropWhile isDigit) | _ => ([], r)
@@ -149,38 +150,40 @@ def maxLex (neg : Bool) : Lex := (if neg then "-" else "").toList ++ "1.79769313
 
 /-- `is >> x` for `double x`: on a failed conversion the value is zero (C++11); on overflow it is the
 largest finite value of the same sign, and `failbit` is set -/
-def extractFloat (old : Lex) : M Lex := do
-  if !(← sentry true) then return old
-  let s ← get
-  let (acc, rest) := scanFloat s.buf
-  let s' := { s.advance acc.length with eof := rest.isEmpty }
-  if validFloat acc then
-    if overflows acc then set { s' with fail := true }; return maxLex (acc.head? == some '-')
-    else set s'; return acc
-  else set { s' with fail := true }; return zeroLex
+def extractFloat (old : Lex) : M Lex := fun s =>
+  match sentry true s with
+  | (false, s1) => (old, s1)
+  | (true, s1) =>
+    let acc := (scanFloat s1.buf).1
+    let rest := (scanFloat s1.buf).2
+    let s' := { s1.advance acc.length with eof := rest.isEmpty }
+    if validFloat acc then
+      if overflows acc then (maxLex (acc.head? == some '-'), { s' with fail := true })
+      else (acc, s')
+    else (zeroLex, { s' with fail := true })
 
 /-- `is >> n` for `int n`: optional sign and decimal digits; returns the lexeme (overflow is outside
 the inputs the check generates and would set `failbit`) -/
-def extractInt (old : Lex) : M Lex := do
-  if !(← sentry true) then return old
-  let s ← get
-  let (sg, body) : List Char × List Char := match s.buf with
-    | c :: cs => if isSign c then ([c], cs) else ([], s.buf)
-    | [] => ([], [])
-  let ds := body.takeWhile isDigit
-  let rest := body.dropWhile isDigit
-  let s' := { s.advance (sg.length + ds.length) with eof := rest.isEmpty }
-  if ds.isEmpty then set { s' with fail := true }; return zeroLex
-  else set s'; return sg ++ ds
+def extractInt (old : Lex) : M Lex := fun s =>
+  match sentry true s with
+  | (false, s1) => (old, s1)
+  | (true, s1) =>
+    let (sg, body) : List Char × List Char := match s1.buf with
+      | c :: cs => if isSign c then ([c], cs) else ([], s1.buf)
+      | [] => ([], [])
+    let ds := body.takeWhile isDigit
+    let rest := body.dropWhile isDigit
+    let s' := { s1.advance (sg.length + ds.length) with eof := rest.isEmpty }
+    if ds.isEmpty then (zeroLex, { s' with fail := true }) else (sg ++ ds, s')
 
-/-- `is >> str` for `std::string str`: `none` when nothing is extracted (the string is then erased) -/
-def extractWord : M (List Char) := do
-  if !(← sentry true) then return []
-  let s ← get
-  let w := s.buf.takeWhile (fun c => !isSpace c)
-  let rest := s.buf.dropWhile (fun c => !isSpace c)
-  set { s.advance w.length with eof := rest.isEmpty }
-  return w
+/-- `is >> str` for `std::string str` (empty when nothing is extracted) -/
+def extractWord : M (List Char) := fun s =>
+  match sentry true s with
+  | (false, s1) => ([], s1)
+  | (true, s1) =>
+    let w := s1.buf.takeWhile (fun c => !isSpace c)
+    let rest := s1.buf.dropWhile (fun c => !isSpace c)
+    (w, { s1.advance w.length with eof := rest.isEmpty })
 
 /-- `is.tellg()`: -1 when `fail()` -/
 def tellg : M (Option Nat) := do let s ← get; return (if s.failed then none else some s.pos)
@@ -199,9 +202,7 @@ def currentEstimateChecksError : Bool := true
 /-- `operator>> (istream&, Estimate&)`; the destination is `(value, error)` as lexemes.
 `open_brace` is uninitialised in the C++ when the stream is already at its end; any value leads to the
 same result because every later step fails, so the model uses `'\x00'`. -/
-def estimateIn (checksError : Bool) (dest : Lex × Lex) : M (Lex × Lex) := do
-  let ob ← readChar '\x00'
-  let bracketed ← (if ob != '(' then do unget; pure false else pure true)
+def estimateTail (checksError bracketed : Bool) (dest : Lex × Lex) : M (Lex × Lex) := do
   let value ← extractFloat ['?']
   if !(← expect '+') then return dest
   if !(← expect '-') then return dest
@@ -210,6 +211,10 @@ def estimateIn (checksError : Bool) (dest : Lex × Lex) : M (Lex × Lex) := do
   if bracketed then
     if !(← expect ')') then return dest
   return (value, error)
+def estimateIn (checksError : Bool) (dest : Lex × Lex) : M (Lex × Lex) := do
+  let ob ← readChar '\x00'
+  let bracketed ← (if ob != '(' then do unget; pure false else pure true)
+  estimateTail checksError bracketed dest
 
 def estimateOut (v e : Lex) : List Char := ['('] ++ v ++ ['+', '-'] ++ e ++ [')']
 
